@@ -55,6 +55,9 @@ def run_option(cfg, in_farm=True):
             base[k] = v
     base.pop("_dims", None)
     model_name = base.pop("_model", None)
+    # runs without an iteration cap are given adequate flows below and then stop within 3-4 iterations: their iteration budget is 30 so that a loop that cannot
+    # terminate is decided by the logical budget well inside the wall-clock watchdog
+    CUR["ins_iteration_budget"] = 30 if (ins and base.get("max_iteration", 0) is None) else BUDGETS["ins_iterations"]
     if ins and base.get("max_iteration", 0) is None:
         # an uncapped importance-sampler run terminates only through its stopping criteria, i.e. only if the flows are good enough to converge: with the tiny flows
         # of the other cases (2 blocks x 4 neurons) a MAF run oscillates for hundreds of iterations, which says nothing about the option under test.  Uncapped runs
@@ -122,7 +125,7 @@ def run_option(cfg, in_farm=True):
         def update_history(self):
             c = CUR["counters"]
             c["iterations"] += 1
-            if c["iterations"] > BUDGETS["ins_iterations"]:
+            if c["iterations"] > CUR.get("ins_iteration_budget", BUDGETS["ins_iterations"]):
                 over("ins_iterations", c["iterations"])
             return o_uh(self)
 
